@@ -3023,6 +3023,74 @@ fn rand_str(rng: &mut Rng, profile: &str) -> String {
     s
 }
 
+/// profile "overlap": strings derived from earlier ones of the same run - prefixes / suffixes / infixes at positions
+/// 0, 1, 3, 4, len-k; strings that start at a LATER occurrence of an earlier string's own 3- or 4-byte stem (so they
+/// share its first bytes and are contained in it, but not at its start); strings sharing 3-, 4-, 8-byte stems; the
+/// same string again after unrelated ones; strings spanning the boundary of two consecutive earlier strings.  ASCII only.
+fn rand_overlap(rng: &mut Rng, pool: &[String]) -> String {
+    let tail = |rng: &mut Rng, n: usize| -> String { (0..n).map(|_| *rng.pick(&["a", "b", "X", "Y", "c", "d"])).collect() };
+    let c = rng.below(100);
+    let ascii: Vec<&String> = pool.iter().filter(|t| t.is_ascii() && !t.is_empty()).collect();
+    if ascii.is_empty() || c < 30 {
+        // a base string in which its own stem occurs again further in (twice or three times)
+        let stem = *rng.pick(&["abc", "abcd", "aab", "aaba", "abcdabcd"]);
+        let mut s = String::from(stem);
+        for _ in 0..rng.range(1, 2) {
+            let n = rng.range(1, 3) as usize;
+            s.push_str(&tail(rng, n));
+            s.push_str(stem);
+        }
+        let n = rng.range(1, 3) as usize;
+        s.push_str(&tail(rng, n));
+        return s;
+    }
+    let t: &str = rng.pick(&ascii).as_str();
+    let len = t.len();
+    if c < 55 {
+        // from a later occurrence of t's own stem
+        for k in [4usize, 3, 8] {
+            if len > k {
+                let hits: Vec<usize> = (1..len - k).filter(|&p| t[p..].starts_with(&t[..k])).collect();
+                if !hits.is_empty() {
+                    let p = *rng.pick(&hits);
+                    let m = if rng.chance(1, 2) { len - p } else { rng.range(k as u64 + 1, (len - p) as u64) as usize };
+                    return t[p..p + m].to_string();
+                }
+            }
+        }
+    }
+    if c < 75 {
+        let k = rng.range(1, 5) as usize;
+        let pos = (*rng.pick(&[0usize, 1, 3, 4, len.saturating_sub(k)])).min(len - 1);
+        let m = rng.range(1, (len - pos) as u64) as usize;
+        return t[pos..pos + m].to_string();
+    }
+    if c < 83 {
+        return t.to_string();
+    }
+    if c < 90 && ascii.len() >= 2 {
+        let i = rng.below(ascii.len() as u64 - 1) as usize;
+        let (x, y) = (ascii[i].as_str(), ascii[i + 1].as_str());
+        let (p, q) = (rng.range(1, 4) as usize, rng.range(1, 4) as usize);
+        return format!("{}{}", &x[x.len().saturating_sub(p)..], &y[..q.min(y.len())]);
+    }
+    if c < 95 {
+        // shares a 3-, 4- or 8-byte stem with t, then goes its own way
+        let k = (*rng.pick(&[3usize, 4, 8])).min(len);
+        let n = rng.range(1, 4) as usize;
+        return format!("{}{}", &t[..k], tail(rng, n));
+    }
+    let n = rng.range(3, 8) as usize;
+    (0..n).map(|_| *rng.pick(&["a", "b"])).collect()
+}
+fn gen_str(rng: &mut Rng, profile: &str, pool: &[String]) -> String {
+    if profile == "overlap" {
+        rand_overlap(rng, pool)
+    } else {
+        rand_str(rng, profile)
+    }
+}
+
 fn drive_str(a: &Args, name: &str) -> Value {
     let mut tr = Tracer::new(&a.out, &format!("str-{}", sanitize(name)));
     tr.max_events = 2500;
@@ -3031,8 +3099,8 @@ fn drive_str(a: &Args, name: &str) -> Value {
     let (mut nev, mut panics, mut refused, mut runs) = (0usize, 0usize, 0usize, 0usize);
     let mut nontrivial_runs = 0usize;
     let mut opcount: Map<String, Value> = Map::new();
-    let profiles: &[&str] = if name == "fixedlen:300" { &["len255", "long", "len255", "utf8"] } else { &["abc", "utf8", "nul", "long"] };
-    let (nruns, steps) = if a.thorough() { (24, 40) } else { (4, 22) };
+    let profiles: &[&str] = if name == "fixedlen:300" { &["len255", "overlap", "long", "len255", "utf8", "overlap"] } else { &["abc", "overlap", "utf8", "nul", "long", "overlap"] };
+    let (nruns, steps) = if a.thorough() { (30, 40) } else { (6, 22) };
     // batch runs (sortable, zo): many strings at once - radix sort takes its bucket path from 32 strings on, the
     // blocked binary search from 513 on, the rank/select index of zo has 256-bit blocks
     let batch_sizes: Vec<usize> = match (fam.as_str(), a.thorough()) {
@@ -3049,7 +3117,7 @@ fn drive_str(a: &Args, name: &str) -> Value {
         let batch = if run >= nruns + big_run as usize { Some(batch_sizes[run - nruns - big_run as usize]) } else { None };
         let profile = if batch.is_some() { "batch" } else if run == nruns { "big" } else { profiles[run % profiles.len()] };
         BIG.store(profile == "big", std::sync::atomic::Ordering::Relaxed);
-        let steps = if profile == "big" { 7 } else if batch.is_some() { 12 } else { steps };
+        let steps = if profile == "big" { 7 } else if batch.is_some() { 12 } else if profile == "overlap" { steps + 12 } else { steps };
         tr.reset("strseq", name, json!({"fam": fam, "variant": variant_of(name), "profile": profile, "dedup": dedups(name), "seed": a.seed}));
         runs += 1;
         let mut objs: Vec<Option<Box<dyn StrS>>> = vec![];
@@ -3066,7 +3134,11 @@ fn drive_str(a: &Args, name: &str) -> Value {
         if fam == "zo" {
             // construction from a list, then reads
             let n = batch.unwrap_or(rng.below(if a.thorough() { 24 } else { 12 }) as usize);
-            let mut input: Vec<String> = (0..n).map(|_| rand_str(&mut rng, if batch.is_some() { "abc" } else { profile })).collect();
+            let mut input: Vec<String> = vec![];
+            for _ in 0..n {
+                let x = gen_str(&mut rng, if batch.is_some() { "abc" } else { profile }, &input);
+                input.push(x);
+            }
             if rng.chance(1, 2) && !input.is_empty() {
                 let d = rng.pick(&input).clone();
                 input.push(d); // a duplicate
@@ -3167,7 +3239,7 @@ fn drive_str(a: &Args, name: &str) -> Value {
                     };
                 }
                 match op {
-                    "push" => 50,
+                    "push" => if profile == "overlap" { 120 } else { 50 },
                     "extend" => 8,
                     "sort" => 8,
                     "clear" => 2,
@@ -3194,7 +3266,7 @@ fn drive_str(a: &Args, name: &str) -> Value {
             let needle = if !pool.is_empty() && (batch.is_some() && rng.chance(5, 6) || rng.chance(2, 3)) {
                 rng.pick(&pool).clone()
             } else {
-                rand_str(&mut rng, if batch.is_some() { "abc" } else { profile })
+                gen_str(&mut rng, if batch.is_some() { "abc" } else { profile }, &pool)
             };
             let nobj = objs.len();
             let r = guard(|| -> (Value, usize) {
@@ -3210,10 +3282,10 @@ fn drive_str(a: &Args, name: &str) -> Value {
                             // lengths around the 20-bit boundary, in a fixed order
                             let n = [(1usize << 20) - 1, 1 << 20, 3, (1 << 20) + 5, 70_000, (1 << 24) - 1, (1 << 24) + 3][pool.len() % 7];
                             ["x", "y", "z"][pool.len() % 3].repeat(n)
-                        } else if !pool.is_empty() && rng.chance(1, 5) {
+                        } else if !pool.is_empty() && profile != "overlap" && rng.chance(1, 5) {
                             rng.pick(&pool).clone()
                         } else {
-                            rand_str(&mut rng, profile)
+                            gen_str(&mut rng, profile, &pool)
                         };
                         pool.push(st.clone());
                         match s.push(&st) {
@@ -3256,7 +3328,7 @@ fn drive_str(a: &Args, name: &str) -> Value {
                     }
                     "extend" => {
                         let k = rng.below(4) as usize;
-                        let xs: Vec<String> = (0..k).map(|_| if !pool.is_empty() && rng.chance(1, 4) { rng.pick(&pool).clone() } else { rand_str(&mut rng, profile) }).collect();
+                        let xs: Vec<String> = (0..k).map(|_| if !pool.is_empty() && rng.chance(1, 4) { rng.pick(&pool).clone() } else { gen_str(&mut rng, profile, &pool) }).collect();
                         pool.extend(xs.iter().cloned());
                         let r = s.extend(&xs);
                         let xj = Value::Array(xs.iter().map(|x| bj(x.as_bytes())).collect());
@@ -3266,7 +3338,7 @@ fn drive_str(a: &Args, name: &str) -> Value {
                         }
                     }
                     "range" => {
-                        let other = if !pool.is_empty() && rng.chance(2, 3) { rng.pick(&pool).clone() } else { rand_str(&mut rng, profile) };
+                        let other = if !pool.is_empty() && rng.chance(2, 3) { rng.pick(&pool).clone() } else { gen_str(&mut rng, profile, &pool) };
                         let (lo, hi) = if rng.chance(1, 6) { (needle.clone(), other) } else if needle <= other { (needle.clone(), other) } else { (other, needle.clone()) };
                         let r = s.range(&lo, &hi);
                         json!({"op":"range","o":o,"a":bj(lo.as_bytes()),"b":bj(hi.as_bytes()),"r":bsj(&r)})
